@@ -240,6 +240,13 @@ class Session:
             raise Inconclusive('function %s: %d candidates in the MIR dump' % (name, len(c)))
         return ix.get(c[0])
 
+    def call(self, E, f, args, mem, guard=True):
+        """execute f symbolically; returns its (merged) return value"""
+        r = E.call_fn(f, args, guard, mem)
+        if r is X.DIVERGE:
+            raise Inconclusive('%s: no return reached (%s)' % (f.name, '; '.join(w for g, w in E.unsupported)[:600]))
+        return r[0]
+
     # -- solving ---------------------------------------------------------
     def _solver(self, E, pre, timeout=None):
         s = z3.Solver()
@@ -292,11 +299,32 @@ class Session:
         self.log('  [%s] %-28s %-12s %.2fs  %s' % (self.prop, oid, verdict, dt, desc[:80]))
         return rec
 
-    def prove(self, oid, E, pre, claim, desc='', bindings=(), bounds=None, assumptions=None):
-        """claim must hold for every input satisfying pre"""
+    def prove(self, oid, E, pre, claim, desc='', bindings=(), bounds=None, assumptions=None, split=None):
+        """claim must hold for every input satisfying pre.  split: optional list of extra
+        preconditions that together cover pre (case split; the caller states the cover)"""
         s = self._solver(E, pre)
         s.add(z3.Not(X.zbool(claim)))
-        r, dt = self._check(s)
+        if split:
+            # the cases must cover: pre and none of the cases is unsat
+            s2 = self._solver(E, pre)
+            s2.add(z3.Not(z3.Or(*[X.zbool(c) for c in split])))
+            r, dt0 = self._check(s2)
+            if r != z3.unsat:
+                self._record(oid, 'prove', desc, E, 'inconclusive', dt0)
+                self.inconclusive.append('%s: case split does not cover the precondition' % oid)
+                return False
+            dt = dt0
+            r = z3.unsat
+            for c in split:
+                s.push()
+                s.add(X.zbool(c))
+                r, dti = self._check(s)
+                dt += dti
+                if r != z3.unsat:
+                    break
+                s.pop()
+        else:
+            r, dt = self._check(s)
         extra = {'bounds': bounds or '', 'pre': assumptions or []}
         if r == z3.unsat:
             rec = self._record(oid, 'prove', desc, E, 'holds', dt, extra)
